@@ -62,6 +62,12 @@ def base_scenarios(rng, tier):
             if d["name"] in ("k1", "k2", "k3"):
                 d["beh"]["outs"] = [{"port": "o", "kind": "const", "v": 1}]
         out.append(scn_)
+    # the same nested shape with an infinitely fast loop (no processing cost, initial time 0): an interrupt raised during the
+    # initial tick is stamped with simulation time 0 exactly - a time like any other
+    out.append({"components": [dev("zsrc", cb={"kind": "period", "p": 5 * P}),
+                               {"name": "zsys", "kind": "sys", "inputs": {"x": ["zsrc", "o"]}, "expose": {"y": ["zin", "o"]},
+                                "components": [dev("zin", {"i": ["external", "x"]}), dev("zper", cb={"kind": "period", "p": 4 * P}), dev("zquiet")]},
+                               dev("zsink", {"i": ["zsys", "y"]})], "n_ticks": 2, "t0": 0})
     # a purely interrupt-driven system (no inner callback is ever pending) next to a periodic top-level device:
     # whatever the system answers carries no call_at of its own
     out.append({"components": [dev("per", cb={"kind": "period", "p": 2 * P}, cost=50_000),
